@@ -117,6 +117,88 @@ static long now_ms()
 }
 
 // ---------------------------------------------------------------------------------------------
+// Load-robust timing.  No decision of this harness is taken on elapsed wall time alone: a thread that
+// has not reached its next point is either RUNNABLE (starved by other load: keep waiting) or BLOCKED
+// in the kernel (state S in /proc/self/task/<tid>/stat, CPU time not advancing) on consecutive samples.
+// C03_PATIENCE (default 1) multiplies every sample count / budget; the check re-runs anything suspicious
+// with C03_PATIENCE=4 before it reports.
+#include <dirent.h>
+#include <sys/syscall.h>
+static int g_patience = 1;
+static int my_tid()
+{
+  return (int)syscall(SYS_gettid);
+}
+struct TStat
+{
+  bool ok;
+  char state;
+  unsigned long long cpu;  // utime + stime, clock ticks
+};
+static TStat tstat(int tid)
+{
+  TStat r{false, '?', 0};
+  char path[64], buf[1024];
+  snprintf(path, sizeof path, "/proc/self/task/%d/stat", tid);
+  FILE *f = fopen(path, "r");
+  if (!f)
+    return r;
+  size_t n = fread(buf, 1, sizeof buf - 1, f);
+  fclose(f);
+  buf[n]  = 0;
+  char *q = strrchr(buf, ')');
+  unsigned long long ut = 0, st = 0;
+  char c = '?';
+  if (q && sscanf(q + 2, "%c %*d %*d %*d %*d %*d %*u %*u %*u %*u %*u %llu %llu", &c, &ut, &st) == 3) {
+    r.ok    = true;
+    r.state = c;
+    r.cpu   = ut + st;
+  }
+  return r;
+}
+// consecutive samples "sleeping in the kernel and not consuming CPU"
+struct BlockWatch
+{
+  int tid = 0, consec = 0, gone = 0;
+  unsigned long long cpu0 = ~0ULL;
+  explicit BlockWatch(int t = 0) : tid(t) {}
+  bool sample(int need)
+  {
+    if (tid <= 0)
+      return false;
+    TStat s = tstat(tid);
+    if (!s.ok) {  // thread has exited
+      gone++;
+      return gone >= need;
+    }
+    if (s.state == 'S' && s.cpu == cpu0)
+      consec++;
+    else {
+      consec = 0;
+      cpu0   = s.cpu;
+    }
+    return consec >= need;
+  }
+};
+static void dump_threads(const char *why)
+{
+  printf("THREAD-DUMP (%s):", why);
+  DIR *d = opendir("/proc/self/task");
+  if (d) {
+    while (struct dirent *e = readdir(d)) {
+      int tid = atoi(e->d_name);
+      if (tid <= 0)
+        continue;
+      TStat s = tstat(tid);
+      printf(" tid=%d state=%c cpu=%llu;", tid, s.state, s.cpu);
+    }
+    closedir(d);
+  }
+  printf("\n");
+}
+static const int SAMPLE_MS = 40;
+
+// ---------------------------------------------------------------------------------------------
 // scheduling controller
 enum
 {
@@ -129,7 +211,10 @@ struct Slot
   std::string point;
   int value = -1;
   unsigned long arrivals = 0;
+  int tid = 0;
 };
+static std::atomic<const char *> last_point[2];  // also maintained when running freely (hang dumps)
+static std::atomic<int> last_tid[2];
 static std::mutex G;
 static std::condition_variable GCV;
 static Slot slot[2];
@@ -142,6 +227,7 @@ static void park(int r, const char *name, int value)  // called by loop / contro
   Slot &s   = slot[r];
   s.point   = name;
   s.value   = value;
+  s.tid     = my_tid();
   s.parked  = true;
   s.arrivals++;
   GCV.notify_all();
@@ -152,10 +238,12 @@ static void park(int r, const char *name, int value)  // called by loop / contro
 static void hook_fn(const char *name, int value)
 {
   bool is_exit = !strcmp(name, "loop.exit");
+  bool is_loop = !strncmp(name, "loop.", 5) || !strncmp(name, "body.", 5);
+  last_point[is_loop ? RL : RC].store(name, std::memory_order_relaxed);
   if (!free_run.load()) {
-    bool is_loop = !strncmp(name, "loop.", 5) || !strncmp(name, "body.", 5);
     park(is_loop ? RL : RC, name, value);
-  }
+  } else if (last_tid[is_loop ? RL : RC].load(std::memory_order_relaxed) == 0)
+    last_tid[is_loop ? RL : RC].store(my_tid(), std::memory_order_relaxed);
   if (is_exit)
     loop_exited = true;
 }
@@ -182,7 +270,7 @@ struct Run
     WOKEN,
     DONE
   } lmode = RUNNING;
-  std::string stuck, late_disabled;
+  std::string stuck, late_disabled, hang_detail;
 
   void body()
   {
@@ -206,6 +294,7 @@ struct Run
         Slot &s  = slot[RC];
         s.point  = destroyed ? "ctl.dead" : "ctl.idle";
         s.value  = -1;
+        s.tid    = my_tid();
         s.parked = true;
         s.arrivals++;
         GCV.notify_all();
@@ -246,6 +335,28 @@ struct Run
     std::unique_lock<std::mutex> lk(G);
     return GCV.wait_for(lk, std::chrono::milliseconds(timeout_ms),
                         [&] { return slot[r].arrivals > prev && slot[r].parked; });
+  }
+  int tid_of(int r)
+  {
+    std::lock_guard<std::mutex> lk(G);
+    return slot[r].tid;
+  }
+  // 1 = arrived; 0 = the thread is BLOCKED in the kernel (not merely starved) / has exited; -1 = gave up
+  // after a very long time although the thread was runnable all along
+  int wait_arrival_robust(int r, unsigned long prev, int need_samples = 10)
+  {
+    BlockWatch w(tid_of(r));
+    long t0 = now_ms();
+    for (;;) {
+      if (wait_arrival(r, prev, SAMPLE_MS))
+        return 1;
+      if (w.tid <= 0)
+        w.tid = tid_of(r);
+      if (w.sample(need_samples * g_patience))
+        return wait_arrival(r, prev, 0) ? 1 : 0;
+      if (now_ms() - t0 > 600000L)
+        return -1;
+    }
   }
   unsigned long arrivals(int r)
   {
@@ -299,9 +410,11 @@ struct Run
     al          = new AsyncLoop([this] { body(); }, thr ? AsyncLoop::THREAD : AsyncLoop::TASK);
     data        = al->loop;
     ctl         = std::thread([this] { controller_main(); });
-    if (!wait_arrival(RC, 0, 5000))
+    // thread start-up (std::thread / detached thread of the tasking backend) can be slow on a loaded
+    // machine; the threads have no tid yet, so this is the one purely time-based wait: 10 minutes
+    if (!wait_arrival(RC, 0, 600000))
       stuck = "controller thread did not start";
-    if (!wait_arrival(RL, 0, 5000))
+    if (!wait_arrival(RL, 0, 600000))
       stuck = "loop thread did not reach its first scheduling point";
   }
 
@@ -310,13 +423,13 @@ struct Run
   {
     if (lmode != WOKEN)
       return;
-    long t0 = now_ms();
-    while (!parked(RL) && now_ms() - t0 < 1000) {
-      if (holds_mutex_point(point(RC)))
-        return;  // the woken thread is blocked on the mutex the controller holds
-      std::this_thread::sleep_for(std::chrono::microseconds(20));
-    }
+    // the notified thread is runnable now; it parks at the predicate unless it blocks on the mutex
+    // (held by the controller): wait for one of the two, however long a starved thread needs
+    if (holds_mutex_point(point(RC)))
+      return;
+    wait_arrival_robust(RL, arrivals_at_sleep);
   }
+  unsigned long arrivals_at_sleep = 0;
 
   // ---- enabledness as the harness sees it
   bool enabled(char tok, std::string *why = nullptr, bool *unforcible = nullptr)
@@ -378,28 +491,43 @@ struct Run
       grant(RL);
       if (p == "loop.exit") {
         lmode = DONE;
-        long t0 = now_ms();
-        while (!loop_exited.load() && now_ms() - t0 < 2000)
-          std::this_thread::yield();
+        BlockWatch w(tid_of(RL));
+        long ts = now_ms();
+        while (!loop_exited.load()) {
+          std::this_thread::sleep_for(std::chrono::microseconds(100));
+          if (now_ms() - ts >= SAMPLE_MS) {
+            ts = now_ms();
+            if (w.sample(10 * g_patience))
+              break;
+          }
+        }
         return true;
       }
       if (p == "loop.pred_evaluated" && v == 0) {
-        long t0 = now_ms();
-        while (now_ms() - t0 < 3000) {
+        BlockWatch w(tid_of(RL));
+        long t0 = now_ms(), ts = t0;
+        for (;;) {
           if (arrivals(RL) > a0 && parked(RL))
             return true;  // (did not sleep -- some other code shape)
-          if (mutex_free()) {
-            lmode = ASLEEP;
+          if (mutex_free()) {  // released atomically with going to sleep
+            lmode             = ASLEEP;
+            arrivals_at_sleep = arrivals(RL);
             return true;
           }
-          std::this_thread::yield();
+          std::this_thread::sleep_for(std::chrono::microseconds(100));
+          if (now_ms() - ts >= SAMPLE_MS) {
+            ts = now_ms();
+            if (w.sample(25 * g_patience) || ts - t0 > 600000L)
+              break;
+          }
         }
-        stuck = "loop thread neither slept nor reached a point after a false predicate";
+        stuck = "loop thread blocked without releasing the mutex after a false predicate";
         return false;
       }
-      if (!wait_arrival(RL, a0, 3000)) {
+      if (wait_arrival_robust(RL, a0, 25) != 1) {
         if (p.compare(0, 9, "loop.pred") == 0 && mutex_free()) {
-          lmode = ASLEEP;
+          lmode             = ASLEEP;
+          arrivals_at_sleep = arrivals(RL);
           return true;
         }
         stuck = "loop thread did not reach a scheduling point after " + p;
@@ -410,7 +538,7 @@ struct Run
     if (tok == 'W') {
       unsigned long a0 = arrivals(RL);
       data->runningCond.notify_one();
-      if (!wait_arrival(RL, a0, 3000)) {
+      if (wait_arrival_robust(RL, a0, 25) != 1) {
         stuck = "sleeping loop thread did not wake on notify";
         return false;
       }
@@ -427,7 +555,7 @@ struct Run
       slot[RC].go = true;
       GCV.notify_all();
     }
-    if (!wait_arrival(RC, a0, busy ? 400 : 3000)) {
+    if (wait_arrival_robust(RC, a0, busy ? 10 : 25) != 1) {
       if (busy && !mutex_free()) {
         late_disabled = "controller blocks on the mutex after leaving " + point(RC);
         return false;
@@ -490,30 +618,48 @@ struct Run
       quit = true;
       GCV.notify_all();
     }
-    long t0       = now_ms();
-    bool forced   = false;
-    bool hung     = false;
+    // A hang is declared only on evidence that does not depend on the machine's load:
+    //   - every unfinished thread is blocked in the kernel on 50 consecutive samples (2 s), or
+    //   - an unfinished thread has burnt 1.5 s of CPU time in a tear-down that needs microseconds (livelock)
+    long t0 = now_ms(), ts = t0, tforced = 0;
+    bool forced = false, hung = false;
+    BlockWatch wc(tid_of(RC)), wl(tid_of(RL));
+    TStat c0 = tstat(wc.tid), l0 = tstat(wl.tid);
+    bool bc = false, bl = false;
     for (;;) {
-      bool done = ctl_exited.load() && loop_exited.load();
-      if (done)
+      bool cdone = ctl_exited.load(), ldone = loop_exited.load();
+      if (cdone && ldone)
         break;
-      long dt = now_ms() - t0;
-      if (dt > 1500 && !forced) {  // emergency release so that the process can go on
-        forced = true;
-        hung   = true;
+      long now = now_ms();
+      if (!forced && now - ts >= SAMPLE_MS) {
+        ts = now;
+        bc = cdone || wc.sample(50 * g_patience);
+        bl = ldone || wl.sample(50 * g_patience);
+        TStat c1 = tstat(wc.tid), l1 = tstat(wl.tid);
+        unsigned long long budget = 150ULL * g_patience;
+        bool spin = (!cdone && c0.ok && c1.ok && c1.cpu - c0.cpu > budget) || (!ldone && l0.ok && l1.ok && l1.cpu - l0.cpu > budget);
+        if ((bc && bl) || spin || now - t0 > 900000L) {
+          forced  = true;  // emergency release so that the process can go on
+          hung    = true;
+          tforced = now;
+          const char *pl = last_point[RL].load(), *pc = last_point[RC].load();
+          hang_detail = std::string(spin ? "livelock" : "all threads blocked") + ": loop thread last point " + (pl ? pl : "?") +
+                        ", controller last point " + (pc ? pc : "?");
+        }
       }
       if (forced) {
         static_cast<std::atomic<bool> &>(data->threadShouldBeAlive).store(false);
         static_cast<std::atomic<bool> &>(data->shouldBeRunning).store(true);
         static_cast<std::atomic<bool> &>(data->insideLoopBody).store(false);
         data->runningCond.notify_all();
+        if (now - tforced > 120000L) {
+          dump_threads("clean-up");
+          printf("HANG-IN-CLEANUP %s\n", hang_detail.c_str());
+          fflush(stdout);
+          _exit(4);
+        }
       }
-      if (dt > 6000) {
-        printf("HANG-IN-CLEANUP\n");
-        fflush(stdout);
-        _exit(4);
-      }
-      std::this_thread::sleep_for(std::chrono::microseconds(forced ? 2000 : 50));
+      std::this_thread::sleep_for(std::chrono::microseconds(forced ? 2000 : (now - t0 < 20 ? 50 : 500)));
     }
     ctl.join();
     return !hung;
@@ -607,6 +753,8 @@ static Outcome replay(bool thr, const std::string &toks)
     o.c_enabled      = r.enabled('C');
   }
   o.cleanup_hang = !r.finish();
+  if (o.cleanup_hang)
+    o.why = r.hang_detail;
   return o;
 }
 
@@ -623,7 +771,7 @@ static std::string join_obs(const Outcome &o)
   if (o.stuck)
     add("STUCK:" + o.why);
   if (o.cleanup_hang)
-    add("CLEANUP-HANG");
+    add("CLEANUP-HANG:" + o.why);
   return s;
 }
 
@@ -661,6 +809,7 @@ static int do_replay()
   return 0;
 }
 
+static long g_budget_ms = 600000;
 // breadth-first exploration of the implementation under the controller
 static int do_explore(bool thr, size_t maxstates, int K)
 {
@@ -723,7 +872,7 @@ static int do_explore(bool thr, size_t maxstates, int K)
   seen.insert(o0.key);
   q.push_back(Node{"", o0.enabled});
   long t0 = now_ms();
-  while (!q.empty() && seen.size() < maxstates && now_ms() - t0 < 150000) {
+  while (!q.empty() && seen.size() < maxstates && now_ms() - t0 < g_budget_ms) {
     Node n = q.front();
     q.pop_front();
     for (char t : n.enabled) {
@@ -744,7 +893,7 @@ static int do_explore(bool thr, size_t maxstates, int K)
       if (!o.viol.empty())
         report(o.viol, p.substr(0, o.viol_step), o.obs[o.viol_step - 1]);
       if (o.cleanup_hang) {
-        report("hang", p, "tearing down after this schedule hangs (destructor/join does not return)");
+        report("hang", p, "after this schedule the pending call never returns: " + o.why);
         if (++slow >= 3)
           goto out;
       }
@@ -762,76 +911,127 @@ out:
   return 0;
 }
 
-// unforced stress: start/stop cycles against a body that checks "stop has returned"
-static int do_stress(bool thr, long cycles, unsigned seed, int inject)
+// unforced stress: start/stop cycles against a body that checks "stop has returned".
+// Time-boxed (runs until max_cycles are done or budget_ms has elapsed and reports how many were done).
+// Hang detection is progress-based: a watchdog samples a counter that every cycle and every body run
+// advances; only >= 30 s (x patience) of wall time without ANY progress is a hang, and then the state
+// of every thread is dumped.  "Lost wake-up" is decided on the loop thread's kernel state (blocked on the
+// condition variable although start() has returned), not on elapsed time.
+static void busy_us(unsigned us)
+{
+  auto t0 = std::chrono::steady_clock::now();
+  while (std::chrono::steady_clock::now() - t0 < std::chrono::microseconds(us)) {
+  }
+}
+static std::atomic<long> st_progress{0};
+static std::atomic<int> st_phase{0};  // 0 construct, 1 cycling, 2 destroying, 3 done
+static std::atomic<long> st_cycle{0};
+static int do_stress(bool thr, long max_cycles, unsigned seed, int inject, long budget_ms)
 {
   free_run = true;
   std::atomic<bool> stopped{true};
-  std::atomic<long> enters{0}, bad{0}, runs_after_start{0};
+  std::atomic<long> enters{0}, bad{0};
+  std::atomic<int> loop_tid{0};
+  std::thread([] {
+    long last = -1, since = now_ms();
+    for (;;) {
+      std::this_thread::sleep_for(std::chrono::milliseconds(250));
+      long p = st_progress.load() + st_phase.load();
+      if (st_phase.load() == 3)
+        return;
+      if (p != last) {
+        last  = p;
+        since = now_ms();
+      } else if (now_ms() - since > 30000L * g_patience) {
+        const char *pl = last_point[RL].load(), *pc = last_point[RC].load();
+        printf("STRESS-HANG no progress for %ld s: phase=%d (0 construct 1 cycling 2 destroying) cycle=%ld loop-thread last point=%s caller last point=%s\n",
+               (now_ms() - since) / 1000, st_phase.load(), st_cycle.load(), pl ? pl : "?", pc ? pc : "?");
+        dump_threads("stress");
+        fflush(stdout);
+        _exit(5);
+      }
+    }
+  }).detach();
   g_inject = inject ? (int)(seed * 2 + 1) : 0;
-  long lost = 0;
+  long lost = 0, done = 0;
+  long t_start = now_ms();
   {
     AsyncLoop loop(
         [&] {
           if (stopped.load())
             bad++;
+          if (!loop_tid.load(std::memory_order_relaxed))
+            loop_tid = my_tid();
           enters++;
+          st_progress++;
           if (stopped.load())
             bad++;
         },
         thr ? AsyncLoop::THREAD : AsyncLoop::TASK);
+    st_phase = 1;
     unsigned x = seed * 2654435761u + 12345u;
-    for (long c = 0; c < cycles; c++) {
+    for (long c = 0; c < max_cycles && (c < 20 || now_ms() - t_start < budget_ms); c++) {
+      st_cycle = c;
       x = x * 1664525u + 1013904223u;
       long e0 = enters.load();
       stopped = false;
       loop.start();
       if ((x >> 8) % 3 == 0)
         loop.start();  // redundant
-      // bounded-time progress: the body must run again after start() returned
-      long t0 = now_ms();
       unsigned spins = (x >> 12) % 200;
       if (c % 50 == 0) {
-        while (enters.load() == e0 && now_ms() - t0 < 2000)
-          std::this_thread::yield();
-        if (enters.load() == e0)
-          lost++;
+        // the body must run again after start() returned.  Lost = the loop thread sits blocked in the
+        // kernel (condition variable) with its CPU time not advancing on 50 consecutive samples (2 s),
+        // while shouldBeRunning is set; a merely starved thread is runnable and is waited for.
+        BlockWatch w(loop_tid.load());
+        long ts = now_ms(), t0 = ts;
+        while (enters.load() == e0) {
+          std::this_thread::sleep_for(std::chrono::microseconds(200));
+          long now = now_ms();
+          if (now - ts >= SAMPLE_MS) {
+            ts = now;
+            if (w.tid <= 0)
+              w.tid = loop_tid.load();
+            if (w.sample(50 * g_patience) || (w.tid <= 0 && now - t0 > 60000L * g_patience)) {
+              lost++;
+              break;
+            }
+          }
+        }
       } else
-        for (unsigned i = 0; i < spins; i++)
-          std::this_thread::yield();
+        busy_us(spins / 4);  // 0..50 us; not yield(): on a loaded machine every yield costs a whole time slice
       loop.stop();
       stopped = true;
       if ((x >> 20) % 3 == 0)
         loop.stop();  // redundant
-      for (unsigned i = 0; i < (x >> 24) % 20; i++)
-        std::this_thread::yield();
+      busy_us((x >> 24) % 8);
+      done++;
+      st_progress++;
     }
-    stopped = true;
-    long t0 = now_ms();
-    (void)t0;
+    stopped  = true;
+    st_phase = 2;
   }  // destructor
+  st_phase = 3;
   g_inject = 0;
-  printf("STRESS launch=%s cycles=%ld inject=%d body_runs=%ld body_while_stopped=%ld lost_wakeups=%ld\n", thr ? "T" : "K",
-         cycles, inject, enters.load(), bad.load(), lost);
+  printf("STRESS launch=%s cycles=%ld inject=%d body_runs=%ld body_while_stopped=%ld lost_wakeups=%ld wall_ms=%ld\n",
+         thr ? "T" : "K", done, inject, enters.load(), bad.load(), lost, now_ms() - t_start);
   return 0;
 }
 
 int main(int argc, char **argv)
 {
   std::string mode = argc > 1 ? argv[1] : "";
+  if (const char *e = getenv("C03_PATIENCE"))
+    g_patience = atoi(e) > 0 ? atoi(e) : 1;
   if (mode == "probe") {
     printf("HOOKS=%d\n", HAVE_HOOKS);
     return 0;
   }
   if (mode == "stress" && argc >= 6) {
-    // a watchdog: a destructor/stop() that hangs must not hang the check
-    std::thread([] {
-      std::this_thread::sleep_for(std::chrono::seconds(45));
-      printf("STRESS-HANG\n");
-      fflush(stdout);
-      _exit(5);
-    }).detach();
-    return do_stress(std::string(argv[2]) == "T", atol(argv[3]), (unsigned)atol(argv[4]), atoi(argv[5]));
+    if (HAVE_HOOKS)
+      install();  // free-running: the points only record the last point reached (for hang dumps)
+    return do_stress(std::string(argv[2]) == "T", atol(argv[3]), (unsigned)atol(argv[4]), atoi(argv[5]),
+                     argc > 6 ? atol(argv[6]) : 3600000L);
   }
   if (!HAVE_HOOKS) {
     printf("NO-HOOKS\n");
@@ -840,8 +1040,11 @@ int main(int argc, char **argv)
   install();
   if (mode == "replay")
     return do_replay();
-  if (mode == "explore" && argc >= 3)
+  if (mode == "explore" && argc >= 3) {
+    if (argc > 4)
+      g_budget_ms = atol(argv[4]);
     return do_explore(std::string(argv[2]) == "T", argc > 3 ? (size_t)atol(argv[3]) : 5000, 12);
+  }
   fprintf(stderr, "usage: harness probe|replay|explore|stress ...\n");
   return 2;
 }
